@@ -865,6 +865,13 @@ func ruleErrorDiscipline(p *Prog, r *Report, rule string, pkgs map[string]bool, 
 		key := shortName(fn) + "|" + name
 		reason, ok := ex[key]
 		used[key] = true
+		// a row for a function covers its closures (`defer func() { f.Close() }()`)
+		for par := fn.Parent(); par != nil && !ok; par = par.Parent() {
+			pk := shortName(par) + "|" + name
+			if reason, ok = ex[pk]; ok {
+				used[pk] = true
+			}
+		}
 		r.add(rule, "dropped-error|"+key, p.ipos(d.Site.In), "error of "+name+" not looked at ("+d.How+"): "+reason, ok,
 			"an error is silently dropped; it is not in tables/err_exempt.tsv")
 	}
